@@ -1053,10 +1053,13 @@ PARTS = {"rv_pairs": part_rv_pairs, "rv_anti": part_rv_anti, "ra": part_ra, "mol
 def _run_part(ctx, part):
     import os
 
+    import time
+
     kind, spec = part
+    t0 = time.time()
     PARTS[kind](ctx, spec)
     if os.environ.get("C11_DEBUG"):
-        print("C11_DEBUG", kind, spec, {k: float(f"{v:.3g}") for k, v in sorted(_MAXR.items())}, flush=True)
+        print("C11_DEBUG", kind, spec, f"{time.time()-t0:.1f}s", {k: float(f"{v:.3g}") for k, v in sorted(_MAXR.items())}, flush=True)
 
 
 def _chunks(n, k):
